@@ -30,6 +30,51 @@ import vplib
 
 FAIL_RETS = ("m1", "null", "huge")
 
+# Path used for the "device full" rows: a symbolic link in the scratch directory that points to /dev/full
+# (never /dev/full itself: the check runs as root, and a library change that unlinks the target of a failed save
+# - seeded change C11-2 does - would remove the device node for every later run).  None = rows skipped, see
+# probe_devfull.
+DEVFULL = None
+SKIPPED = []            # (what, reason): everything the catalogue / tie leaves out, copied into the evidence
+
+
+def probe_devfull(ctx):
+    """/dev/full must be the character device (1, 7) and a write to it must fail with ENOSPC."""
+    import errno as _errno
+    import stat
+    global DEVFULL
+    DEVFULL = None
+    reason = None
+    try:
+        st = os.stat("/dev/full")
+        if not stat.S_ISCHR(st.st_mode):
+            reason = "/dev/full is not a character device (mode %o)" % st.st_mode
+        else:
+            fd = os.open("/dev/full", os.O_WRONLY)
+            try:
+                os.write(fd, b"x")
+                reason = "a write to /dev/full succeeded"
+            except OSError as e:
+                if e.errno != _errno.ENOSPC:
+                    reason = "a write to /dev/full failed with errno %d, not ENOSPC" % e.errno
+            finally:
+                os.close(fd)
+    except OSError as e:
+        reason = "/dev/full cannot be used: %s" % e
+    if reason is None:
+        link = os.path.join(ctx.tmp, "devfull")
+        try:
+            if os.path.lexists(link):
+                os.unlink(link)
+            os.symlink("/dev/full", link)
+            DEVFULL = link
+        except OSError as e:
+            reason = "cannot create the symbolic link to /dev/full: %s" % e
+    if reason is not None:
+        SKIPPED.append(("catalogue rows save [device-full] (vnadata_save, vnacal_save)", reason))
+        ctx.notes.append("catalogue rows save [device-full] skipped: " + reason)
+    return DEVFULL
+
 
 def hx(s):
     return s.encode("utf-8", "surrogateescape").hex() if s else "-"
@@ -55,6 +100,8 @@ class Case(object):
             a = (a + [0] * 8)[:8]
             return "new %s %d %d %d 3 %d %d %s %s %s" % (self.id, s["type"], s["rows"], s["cols"], s["nstd"], s["seed"],
                                                        self.func, " ".join(str(x) for x in a), hx(self.text))
+        if getattr(self, "ptie", False):
+            return "ptie %s %s %s" % (self.id, self.func, hx(self.text))
         return "prop %s %d %s %s" % (self.id, s["variant"], self.func, hx(self.text))
 
     def describe(self):
@@ -390,9 +437,9 @@ def file_cases(s, rng):
     # errno on return must still be the reported one
     for cls, name, text, errnos in FLOAD_TEXTS[:4] + FLOAD_TEXTS[6:8]:
         out.append(Case("data", s, "load_text", cls + " (by name)", [], fail("m1", errnos, unchanged=None), name + "\n" + text))
-    if savable:
+    if savable and DEVFULL:
         out.append(Case("data", s, "save", "device-full", [], dict(fail("m1", cb=(1,), unchanged=None), any_system_errno=True),
-                        "/dev/full"))
+                        DEVFULL))
     out.append(Case("data", s, "save", "no-such-directory", [],
                     fail("m1", ("ENOENT",) if savable else ("ENOENT", "EINVAL"), unchanged=None), "/nonexistent-dir/x.npd"))
     if s["type"] == 0:
@@ -537,9 +584,9 @@ def cal_cases_for_state(s, rng):
     out.append(Case("cal", s, "load", "no-magic", [0], fail("null", ("EBADMSG",)), "calibrations: []\n"))
     out.append(Case("cal", s, "load", "wrong-structure", [0], fail("null", ("EBADMSG",)), "#VNACal 1.0\ncalibrations: 5\n"))
     out.append(Case("cal", s, "save", "no-such-directory", [], fail("m1", ("ENOENT",)), "/nonexistent-dir/x.vnacal"))
-    if s["ncal"] > 0 and s["holes"] != (1 << s["ncal"]) - 1:
+    if s["ncal"] > 0 and s["holes"] != (1 << s["ncal"]) - 1 and DEVFULL:
         out.append(Case("cal", s, "save", "device-full", [], dict(fail("m1", cb=(1,), unchanged=None), any_system_errno=True),
-                        "/dev/full"))
+                        DEVFULL))
     # apply (error_fn)
     for ci in ci_classes(s):
         if not cal_live(s, ci):
@@ -763,6 +810,7 @@ def shrink(ctx, runner, case, key):
 
 def run_catalogue(ctx, runner):
     rng = ctx.rng
+    probe_devfull(ctx)
     nst = {"data": 10, "cal": 6, "new": 10, "prop": 3} if ctx.tier == "quick" else {"data": 60, "cal": 24, "new": 42, "prop": 8}
     cases = []
     for fam in ("data", "cal", "new", "prop"):
@@ -843,6 +891,14 @@ def tie_data_tuples(ctx):
     quick tier keeps every state but samples the multi-index tuples."""
     rng = ctx.rng
     states = []
+    if ctx.tier == "quick":
+        SKIPPED.append(("tie: object states of type U, Y, G, B (quick tier only)",
+                        "sampling: they share every test with T, Z, H, A; the thorough tier runs them"))
+    SKIPPED.append(("tie: 0 x n and n x 0 objects (n > 0), and the 0 x 0 object with frequencies > 0",
+                    "left out of the state space: a zero-sized matrix with frequencies makes vnadata_resize call "
+                    "memset(NULL, 0, 0), which UBSan reports (nonnull attribute); memory safety is property C03's subject"))
+    SKIPPED.append(("tie: set_z0_vector, set_all_z0, set_fz0_vector on the 0 x 0 object",
+                    "memcpy(NULL, ., 0) in the library (UBSan, same remark)"))
     for r in range(4):
         for c in range(4):
             for t in range(0, 11):
@@ -869,7 +925,8 @@ def tie_data_tuples(ctx):
         for func in TIE_FUNCS:
             if func in ("resize", "init"):
                 for (t, r, c, f) in ((1, 2, 2, 1), (1, 2, 3, 1), (2, 2, 2, 0), (2, 3, 3, 1), (10, 1, 3, 2), (10, 2, 2, 2), (0, 0, 0, 0),
-                                     (0, -1, 1, 1), (0, 1, -1, 1), (0, 1, 1, -1), (11, 1, 1, 1), (-1, 1, 1, 1), (4, 3, 3, 3), (6, 2, 1, 1)):
+                                     (0, -1, 1, 1), (0, 1, -1, 1), (0, 1, 1, -1), (11, 1, 1, 1), (-1, 1, 1, 1), (4, 3, 3, 3), (6, 2, 1, 1),
+                                     (0, 65536, 65536, 0), (0, 46341, 46341, 1), (0, 2, 1073741824, 0)):
                     tuples.append((func, [t, r, c, f]))
             elif func == "set_type":
                 tuples += [(func, [t]) for t in (-1, 0, 1, 2, 4, 6, 8, 10, 11)]
@@ -911,11 +968,15 @@ def model_tie(ctx, runner, drv, broken):
                                                   " ".join(str(x) for x in aa)))
     # NULL handle
     s0 = {"type": 1, "rows": 2, "cols": 2, "freqs": 2, "fz0": 0, "seed": 5}
-    for func, ret, a in NULL_FUNCS:
-        if func in TIE_FUNCS and func != "set_frequency":
+    # (every function of the family, also those the model says dereference the NULL pointer: the model line is
+    # then "fault" and the library is expected not to return; such a case ends its harness process, the runner restarts)
+    nnull = 0
+    for func, ret, a in NULL_FUNCS + [("set_frequency", "m1", [0])]:
+        if func in TIE_FUNCS:
             cases.append(Case("data", s0, func + "@null", "tie", a, OK))
             aa = (a + [0, 0, 0, 0])[:4]
             mlines.append("d 1 1 2 2 2 0 %s %s" % (func, " ".join(str(x) for x in aa)))
+            nnull += 1
     # vnacal query family
     qcases = []
     for ncal in range(4):
@@ -925,18 +986,28 @@ def model_tie(ctx, runner, drv, broken):
             slots = ",".join(("-" if (holes >> i) & 1 or i >= ncal else str(i)) for i in range(al)) if al else "empty"
             for ci in range(-2, al + 2):
                 for func, ret in GETTERS:
-                    if ctx.tier == "quick" and func not in ("get_name", "get_rows", "get_fmax", "get_z0"):
+                    if ctx.tier == "quick" and func not in ("get_name", "get_rows", "get_fmax", "get_z0") and (ci + ncal) % 3:
                         continue
-                    qcases.append((Case("cal", s, func, "tie", [ci], OK), "q %s get_%s %d" % (slots, ret, ci)))
+                    qcases.append((Case("cal", s, func, "tie", [ci], OK), "q %s %s %d" % (slots, func, ci)))
                 qcases.append((Case("cal", s, "delete_calibration", "tie", [ci], OK), "q %s delete %d" % (slots, ci)))
-                qcases.append((Case("cal", s, "property_keys", "tie", [ci], OK, "."), "q %s prop_null %d" % (slots, ci)))
-                qcases.append((Case("cal", s, "property_type", "tie", [ci], OK, "."), "q %s prop_m1 %d" % (slots, ci)))
+                qcases.append((Case("cal", s, "property_keys", "tie", [ci], OK, "."), "q %s prop_keys %d" % (slots, ci)))
+                qcases.append((Case("cal", s, "property_type", "tie", [ci], OK, "."), "q %s prop_type %d" % (slots, ci)))
             for i in range(ncal + 1):
                 qcases.append((Case("cal", s, "find", "tie", [], OK, "cal%d" % i), "q %s find %d" % (slots, i)))
             qcases.append((Case("cal", s, "add_calibration", "tie", [0], OK, "nw"), "q %s add 50" % slots))
             for i in range(ncal):
                 if not (holes >> i) & 1:
                     qcases.append((Case("cal", s, "add_calibration", "tie", [4], OK, "cal%d" % i), "q %s add %d" % (slots, i)))
+    # NULL vnacal_t pointer: every getter, find, delete, the property functions
+    sq = {"ncal": 1, "holes": 0, "seed": 4}
+    for func, ret in GETTERS:
+        qcases.append((Case("cal", sq, func + "@null", "tie", [0], OK), "q null %s 0" % func))
+    qcases.append((Case("cal", sq, "find@null", "tie", [], OK, "cal0"), "q null find 0"))
+    qcases.append((Case("cal", sq, "delete_calibration@null", "tie", [0], OK), "q null delete 0"))
+    for func, mname, text in (("property_type", "prop_type", "."), ("property_count", "prop_count", "."), ("property_keys", "prop_keys", "."),
+                              ("property_get", "prop_get", "label"), ("property_set", "prop_set", "k=v"),
+                              ("property_delete", "prop_delete", "label"), ("property_set_subtree", "prop_set_subtree", "k")):
+        qcases.append((Case("cal", sq, func + "@null", "tie", [-1], OK, text), "q null %s -1" % mname))
     cases += [q[0] for q in qcases]
     mlines += [q[1] for q in qcases]
     # parameter registration of _vnacal_new_add_common (model LV.Err.RefutedModel.add_standard):
@@ -960,11 +1031,21 @@ def model_tie(ctx, runner, drv, broken):
         return
     results = runner.run(cases)
     diffs = []
+    faults = []
     ndata = len(tuples)
     for k, (c, ml) in enumerate(zip(cases, mres)):
         r = results.get(c.id)
         m = ml.split()
         ctx.count(("tie", c.fam, c.func, tuple(c.args), tuple(sorted(c.state.items())), c.text) if m[0] != "pass" else None)
+        if m[0] == "fault":
+            # the model says the C code dereferences the NULL pointer (no NULL test in front of the first
+            # dereference in the C text): the library must not come back with an answer
+            if r is not None and "crash" in r and not str(r["crash"].get("error", "")).startswith("not run"):
+                faults.append({"function": c.func, "library": r["crash"]})
+            elif r is not None and "crash" not in r:
+                diffs.append((c, ml, "model: the function dereferences the NULL pointer it is given; library returned %s %s"
+                              % (r["ret"], r["errno"])))
+            continue
         if r is None or "crash" in r:
             if r is not None and str(r["crash"].get("error", "")).startswith("not run"):
                 continue
@@ -983,7 +1064,7 @@ def model_tie(ctx, runner, drv, broken):
             elif c.fam == "new":
                 pass
             elif c.fam == "data" and c.func not in ("init", "init@null") and r["d0"] != r["d1"]:
-                prob = "model: refusal precedes every write; library changed the object"
+                prob = "model (every check of the function precedes its first write): a refused call leaves the object as it was; library changed the object"
         if prob is None and c.fam == "data" and "@null" not in c.func and r.get("post") != m[3]:
             prob = "summary after the call: model %s, library %s" % (m[3], r.get("post"))
         if prob is None and c.fam == "new":
@@ -992,7 +1073,7 @@ def model_tie(ctx, runner, drv, broken):
             if got != (m[3], m[4], m[5]):
                 prob = "bookkeeping after the call (parameters, unknowns, measurements): model %s, library %s" % (
                     (m[3], m[4], m[5]), got)
-        if prob is None and c.fam == "cal":
+        if prob is None and c.fam == "cal" and "@null" not in c.func:
             if r.get("slots") != m[3]:
                 prob = "slot table after the call: model %s, library %s" % (m[3], r.get("slots"))
             elif len(m) > 4 and c.func in ("find", "add_calibration") and r.get("ci") != m[4]:
@@ -1000,8 +1081,9 @@ def model_tie(ctx, runner, drv, broken):
         if prob:
             diffs.append((c, ml, prob))
     ctx.traces_validated += len(cases)
-    ctx.extra["tie_tuples"] = {"vnadata": ndata, "null_handle": len(cases) - ndata - len(qcases) - len(rcases),
+    ctx.extra["tie_tuples"] = {"vnadata": ndata, "null_handle": nnull,
                                "vnacal_query": len(qcases), "add_common_registration": len(rcases)}
+    ctx.extra["null_pointer_dereferenced_by"] = faults
     ctx.obligation("tie:prologues", not diffs, "; ".join("%s%s: %s" % (d[0].func, d[0].args, d[2]) for d in diffs[:4]))
     seen = set()
     for c, ml, prob in diffs:
@@ -1170,14 +1252,67 @@ def model_tie2(ctx, runner, drv, broken):
                     for mode in (0, 1, 2):
                         if quick and rng.random() > 0.5:
                             continue
-                        if r * c == 0 and nt == 10 and mode == 1 and t in (1, 4, 5):
-                            continue    # empty S/Z/Y matrix to Zin in another object: the 1 x 0 destination has one
-                                        # port, the source none, and vnadata_convert copies one z0 from a NULL vector
-                                        # (memory safety: C03; reported to the lead)
                         pairs.append((Case("data", sd, "convert", "tie", [nt, mode], OK),
                                       "cv 0 %d %d %d %d %d" % (t, r, c, 1 if mode == 2 else 0, nt), "conv"))
     pairs.append((Case("data", {"type": 1, "rows": 2, "cols": 2, "freqs": 1, "fz0": 0, "seed": 27}, "convert@null", "tie", [4, 0], OK),
                   "cv 1 1 2 2 0 4", "conv"))
+    # 9. NULL handle: vnacal_new family (every modelled function) and parameter family
+    for func, a, mname in (("set_frequency_vector", [0], "fv"), ("set_z0", [], "z0"), ("add_single_reflect_m", [2, 1, 0, 0, 2, 2, 0, 0], "add"),
+                           ("add_double_reflect_m", [2, 1, 1, 2, 2, 2, 0, 0], "add"), ("add_through_m", [0, 0, 1, 2, 2, 2, 0, 0], "add"),
+                           ("add_line_m", [0, 0, 1, 2, 2, 2, 1, 0], "add"), ("add_mapped_matrix_m", [2, 1, 1, 2, 2, 2, 2, 2], "add"),
+                           ("set_m_error", [0], "me"), ("set_pvalue_limit", [500], "pv"), ("set_et_tolerance", [1], "et"),
+                           ("set_p_tolerance", [1], "pt"), ("set_iteration_limit", [5], "it"), ("solve", [0], "solve")):
+        pairs.append((Case("new", s22, func + "@null", "tie", a, OK), "nn %s" % mname, "null"))
+    for func, a, margs in (("make_scalar", [], "ms"), ("make_vector", [0], "mv 3 1,2,3 0"), ("make_unknown", [3], "mu 3"),
+                           ("make_correlated", [3, 0], "mc 3 3 1,2,3 1/10,1/10,1/5"), ("delete_parameter", [4], "dl 4"),
+                           ("get_parameter_value", [4, 20], "gv 4 20/10")):
+        pairs.append((Case("cal", sc, func + "@null", "tie", a, OK), "pp 1 " + margs, "null"))
+    # 10. vnaproperty_vset / _vset_subtree on paths of map keys (model LV.Err.RefutedModel.vset, run in the order of the
+    #     C text): a NULL root, up to three accepted sets, then one call of a random class; compared: outcome and the tree
+    vpairs = []
+    for k in range(60 if quick else 400):
+        kind = rng.choice(["set", "set", "subtree"])
+        descs = []
+
+        def path():
+            return [rng.randint(1, 3) for _ in range(rng.randint(1, 3))]
+
+        def render(pth, tail, tok):
+            txt = ".".join("k%d" % x for x in pth) + tail
+            return txt + ("=%d" % tok if isinstance(tok, int) else "#" if tok == "#" else "")
+
+        def mdesc(ok, pth, asg, tok):
+            return "%d,%s,%d,%s" % (ok, ".".join(str(x) for x in pth) or "-", asg,
+                                     "=%d" % tok if isinstance(tok, int) else "#" if tok == "#" else "eof")
+        for _ in range(rng.randint(0, 3) if kind == "set" else 0):
+            pth, tok = path(), rng.choice([rng.randint(0, 99), rng.randint(0, 99), "#"])
+            descs.append((render(pth, "", tok), "1,%s,1,%s" % (".".join(str(x) for x in pth), "=%d" % tok if isinstance(tok, int) else "#")))
+        prefix_t = ";".join(d[0] for d in descs)
+        prefix_m = ";".join(d[1] for d in descs)
+        pth = path()
+        cls = rng.choice(["accept", "accept", "novalue", "trailing", "maptail", "listtail", "syntax1", "syntax2"])
+        if cls == "accept":
+            tok = rng.choice([rng.randint(0, 99), "#"]) if kind == "set" else ""
+            last = (render(pth, "", tok), mdesc(1, pth, 1, tok))
+        elif cls == "novalue":
+            last = (render(pth, "", ""), mdesc(1, pth, 1, ""))
+        elif cls == "trailing":
+            tok = rng.randint(0, 99)
+            last = (render(pth, "", tok), mdesc(1, pth, 1, tok))
+        elif cls == "maptail":
+            last = (render(pth, "{}", 5), mdesc(1, pth, 0, 5))
+        elif cls == "listtail":
+            last = (render(pth, "[]", 5), mdesc(1, pth, 0, 5))
+        elif cls == "syntax1":
+            last = ("k1..k2=1", mdesc(0, [], 1, 1))
+        else:
+            last = ("k1[=1", mdesc(0, [], 1, 1))
+        text = (prefix_t + ";" if prefix_t else "") + last[0]
+        mline = "v %s %s" % (kind, (prefix_m + ";" if prefix_m else "") + last[1])
+        c = Case("prop", {"variant": 0}, kind, "tie", [], OK, text)
+        c.ptie = True
+        vpairs.append((c, mline, "vset"))
+    pairs += vpairs
     cases = [p[0] for p in pairs]
     results = runner.run(cases)
     # the solve oracle
@@ -1200,6 +1335,13 @@ def model_tie2(ctx, runner, drv, broken):
         m = ml.split()
         counts[kind] = counts.get(kind, 0) + 1
         ctx.count(("tie2", c.func, tuple(c.args), c.text, tuple(sorted(c.state.items()))) if m[0] != "pass" else None)
+        if m[0] == "fault":
+            if r is not None and "crash" in r and not str(r["crash"].get("error", "")).startswith("not run"):
+                ctx.extra.setdefault("null_pointer_dereferenced_by", []).append({"function": c.func, "library": r["crash"]})
+            elif r is not None and "crash" not in r:
+                diffs.append((c, ml, "model: the function dereferences the NULL pointer it is given; library returned %s %s"
+                              % (r["ret"], r["errno"])))
+            continue
         if r is None or "crash" in r:
             if r is not None and str(r["crash"].get("error", "")).startswith("not run"):
                 continue
@@ -1222,6 +1364,10 @@ def model_tie2(ctx, runner, drv, broken):
                     r.get("w0", r["d0"]), r.get("w1", r["d1"]))
             elif r["ecb"] != r["errno"] and r["cb"] != "0":
                 prob = "errno inside the error function %s, on return %s" % (r["ecb"], r["errno"])
+        if prob is None and kind == "vset":
+            mtree = re.sub(r"(\d+):", r"k\1:", m[3])
+            if r.get("tree") != mtree:
+                prob = "tree after the call: model %s, library %s" % (mtree, r.get("tree"))
         if prob:
             diffs.append((c, ml, prob))
     ctx.traces_validated += len(cases)
